@@ -15,6 +15,7 @@ import (
 type Build struct {
 	Scratch      string
 	Cli          string // shipped binary, default toolchain
+	CliSim       string // same command, go1.26.8 + seeded runtime entropy
 	WorkerNative string // harness, default toolchain, real clock and entropy
 	WorkerSim    string // harness, go1.26.8, synctest bubble + seeded runtime entropy
 	RepoDir      string
@@ -247,12 +248,18 @@ func doBuild(wantSim bool) *Build {
 			infraFail("write patched runtime: %v", err)
 		}
 		ovSim := writeOverlay("overlay.sim.json", map[string]string{randPath: pp})
+		// the shipped command built with the seeded-entropy runtime: main() runs on goroutine 1, whose
+		// map entropy comes from VERIFSIM_INIT_SEED, so CLI fresh-process runs replay exactly
+		b.CliSim = filepath.Join(scratch, "gosk.sim")
+		if out, err := runCmd(b.RepoDir, env, gosim, "build", "-overlay", ovSim, "-o", b.CliSim, "./cmd/gosk"); err != nil {
+			infraFail("building seeded-entropy CLI failed: %v\n%s", err, out)
+		}
 		b.WorkerSim = filepath.Join(scratch, "worker.sim")
 		if out, err := runCmd(b.RepoDir, env, gosim, "test", "-c", "-vet=off", "-tags", "verifsim_bubble", "-overlay", ovSim, "-o", b.WorkerSim, "./internal/verifsim_worker"); err != nil {
 			infraFail("building sim worker failed: %v\n%s", err, out)
 		}
 	}
-	for _, p := range []string{b.Cli, b.WorkerNative, b.WorkerSim} {
+	for _, p := range []string{b.Cli, b.CliSim, b.WorkerNative, b.WorkerSim} {
 		if p != "" {
 			os.Chmod(p, 0755)
 		}
